@@ -318,3 +318,29 @@ package bigslice
 //@   loop 2 invariant c: implies(f.reader.nreads > old(f.reader.nreads), f.eof == (f.reader.lastErr == sliceio.EOF))
 //@   loop 2 invariant d: implies(f.reader.nreads > old(f.reader.nreads), f.reader.lastErr == nil || f.reader.lastErr == sliceio.EOF)
 //@   loop 2 invariant e: f.reader.nreads >= old(f.reader.nreads)
+
+// ---- C01/C17: the cogroup merge ----
+
+// Each step of the gather loop takes one row from the head buffer of the heap and advances that buffer; the heap
+// order must be re-established (heap.Fix, or heap.Remove once the buffer is exhausted) before the head is looked at
+// again — also after a successful refill. A failed refill is returned and remembered. (Frame plumbing is
+// abstracted: any values, may panic.)
+//@ func bigslice.(*cogroupSlice).Dep (i) (d)
+//@   requires c != nil
+//@   panics_if i < 0 || i >= len(c.slices)
+//@   ensures  d.Slice == c.slices[i] && d.Shuffle && d.Partitioner == nil && !d.Expand
+//@   modifies nothing
+
+//@ func bigslice.(*cogroupReader).Read (ctx, out) (n, err)
+//@   requires c != nil && c.op != nil && len(c.readers) == len(c.op.slices) && forall(i, 0, len(c.readers), c.readers[i] != nil)
+//@   may_panic
+//@   flag abstract_calls frame.Make, frame.Frame.Prefixed, frame.Frame.Index, frame.Frame.Less, frame.AppendFrame, frame.Frame.Slice, frame.Frame.Value, sortio.SortReader, sortio.(*FrameBuffer).Fill
+//@   flag keeps_own sortio.SortReader
+//@   ensures  sticky: implies(old(c.err) != nil, n == 0 && err == old(c.err))
+//@   ensures  error-remembered: implies(err != nil, c.err == err)
+//@   ensures  eof-means-no-rows: implies(err == sliceio.EOF && old(c.err) == nil, n == 0)
+//@   modifies unknown
+//@   loop 1 invariant c.heap != nil && c.err == nil
+//@   loop 2 invariant c.heap != nil && c.err == nil && n >= 0
+//@   loop 3 invariant c.heap != nil && c.err == nil && n >= 0 && implies(last < 0, len(c.heap.Buffers) > 0)
+//@   loop 3 step heap-order-restored-after-every-advance: hfixes == at_head(hfixes) + 1
